@@ -397,12 +397,16 @@ func (s *Server) serveStream(ctx context.Context, r io.Reader, w io.Writer, req 
 				// Maybe externalize large data batches
 				dataBatch := ab.batch
 				if s.externalConfig != nil && dataBatch.NumRows() > 0 {
-					extBatch, _, extErr := maybeExternalizeBatchCtx(ctx, dataBatch, arrow.Metadata{}, s.externalConfig)
+					extBatch, extMeta, extErr := maybeExternalizeBatchCtx(ctx, dataBatch, arrow.Metadata{}, s.externalConfig)
 					if extErr != nil {
 						slog.Error("failed to externalize stream batch", "err", extErr)
 					} else if extBatch != dataBatch {
+						// The location lives in the pointer's custom metadata;
+						// without it the receiver sees an empty batch.
+						withMeta := array.NewRecordBatchWithMetadata(extBatch.Schema(), extBatch.Columns(), extBatch.NumRows(), extMeta)
+						extBatch.Release()
 						dataBatch.Release()
-						dataBatch = extBatch
+						dataBatch = withMeta
 					}
 				}
 				// Maybe ship the data batch through shared memory.
